@@ -237,6 +237,16 @@ func (ipv6 *IPv6) DecodeFromBytes(data []byte, df gopacket.DecodeFeedback) error
 	// We treat a HopByHop IPv6 option as part of the IPv6 packet, since its
 	// options are crucial for understanding what's actually happening per packet.
 	if ipv6.NextHeader == IPProtocolIPv6HopByHop {
+		if ipv6.Length != 0 {
+			// the payload length counts the extension headers: cut the data
+			// there before the hop-by-hop header and what follows are decoded
+			pEnd := int(ipv6.Length)
+			if pEnd > len(ipv6.Payload) {
+				df.SetTruncated()
+				pEnd = len(ipv6.Payload)
+			}
+			ipv6.Payload = ipv6.Payload[:pEnd]
+		}
 		err := ipv6.hbh.DecodeFromBytes(ipv6.Payload, df)
 		if err != nil {
 			return err
@@ -260,6 +270,7 @@ func (ipv6 *IPv6) DecodeFromBytes(data []byte, df gopacket.DecodeFeedback) error
 			return errors.New("IPv6 length 0, but HopByHop header does not have jumbogram option")
 		} else {
 			ipv6.Payload = ipv6.Payload[ipv6.hbh.ActualLength:]
+			return nil
 		}
 	}
 
